@@ -3,7 +3,17 @@
    little-endian words sum to zero modulo 2^16 (the sign-extension branch of the code is irrelevant
    modulo 2^16 and is reached), and storing it yields an entry that verifies.  Removal of El Torito
    in the specification removes exactly the catalog names and boot references (from LinksProofs).
-   Pointers, media/platform/load size, boot-info-table contents and read-back are decided on
+   Model/Eltorito.v is a byte-level hand model of eltorito.py (validation entry, initial/section
+   entries, section headers, EltoritoBootCatalog.record / parse state machine / add_section, the
+   reader loop of _check_and_parse_eltorito, the boot info table and its checksum), tied to /repo by
+   etleaf.py on every run.  For EVERY catalog that new + add_section can build (any number of
+   sections up to 31, bootable or not) the bytes of the catalog extent, followed by ANYTHING, parse
+   back to the same catalog; every entry `new` accepts can be recorded; the boot info checksum is
+   the 32-bit sum of the file's own words from offset 64.  The first faithful model REFUTED four of
+   these statements (non-bootable section entry taken for the terminator, 31-section catalog
+   unterminated, sector count > 65535 accepted, checksum over-reading the file object); each witness
+   was reproduced on pycdlib and repaired (fixes acaa253, 351102c, 262580a, ec27ab7), and the model
+   follows the repaired code.  Pointers, media/platform/load size and read-back are decided on
    generated bootable images by the independent reader and the API. *)
 From Coq Require Import ZArith List Bool.
 From PV.Base Require Import Prim.
@@ -11,6 +21,8 @@ From PV.Gen Require Import GenFun.
 From PV.Model Require Import Checksums.
 From PV.Proofs Require Import ChecksumsArithProofs FsSpecProofs LinksProofs.
 From PV.Spec Require Import FsSpec.
+From PV.Model Require Eltorito.
+From PV.Proofs Require EltoritoProofs EltoritoCatalogProofs EltoritoBuiltProofs EltoritoBitProofs.
 Import ListNotations.
 Local Open Scope Z_scope.
 
@@ -40,3 +52,29 @@ Proof.
     + intros bt' x F' X N. exact (refs_rm_eltorito_unrelated s s' bt' x S F' X N).
     + destruct (refs_rm_eltorito s s' bt S F) as (A & _). exact A.
 Qed.
+
+(* ---- Model/Eltorito.v --------------------------------------------------------------------------- *)
+Theorem C11_catalog_extent_roundtrip : forall c ab beyond, EltoritoBuiltProofs.built c ab ->
+  Eltorito.parse_catalog_extent (Eltorito.cat_extent_bytes c ++ beyond) = Some c.
+Proof. exact EltoritoBuiltProofs.built_extent_roundtrip. Qed.
+
+Theorem C11_full_catalog_roundtrip : forall c ab beyond, EltoritoBuiltProofs.built c ab -> zlen (Eltorito.c_sections c) = 31 ->
+  length (Eltorito.cat_bytes c) = 2048%nat /\ Eltorito.cat_extent_bytes c = Eltorito.cat_bytes c /\
+  Eltorito.parse_catalog_extent (Eltorito.cat_bytes c ++ beyond) = Some c /\
+  (forall sc ls m st efi b, Eltorito.cat_add_section c sc ls m st efi b = None).
+Proof. exact EltoritoBuiltProofs.full_catalog_roundtrip. Qed.
+
+Theorem C11_every_accepted_entry_can_be_recorded : forall sc ls m st b e, Eltorito.entry_new sc ls m st b = Some e ->
+  Eltorito.entry_record e <> None /\ Eltorito.entry_record e = Some (Eltorito.entry_bytes e) /\
+  Eltorito.entry_parse (Eltorito.entry_bytes e) = Some e.
+Proof. exact EltoritoProofs.entry_new_record_total. Qed.
+
+Theorem C11_boot_info_checksum_is_over_the_files_own_bytes : forall fp data_len,
+  Eltorito.bit_csum fp data_len =
+  Some (Eltorito.zsum32 (skipn 64 (firstn (Z.to_nat data_len) fp)) mod 4294967296).
+Proof. exact EltoritoBitProofs.bit_csum_exact_prefix. Qed.
+
+Theorem C11_validation_entry_of_new_verifies : forall pid, Eltorito.platform_ok pid = true ->
+  exists v, Eltorito.val_new pid = Some v /\ Eltorito.val_ok v = true /\ Eltorito.v_platform_id v = pid /\
+            et_word_sum (Eltorito.val_bytes v) mod 65536 = 0 /\ Eltorito.val_parse (Eltorito.val_bytes v) = Some v.
+Proof. exact EltoritoProofs.val_new_ok. Qed.
